@@ -122,6 +122,13 @@ class C14(Check):
             res.outcomes.add(repr(obs))
             probs = judge(obs, base_obs)
             dev = [(i, trace[i][0], ch) for i, ch in enumerate(choices) if ch]
+            # pure per-query budget (no total, no preprocessing budget): every query has its own deadline, so ONE observed
+            # expiry can flag at most one row per call; the rows of the other queries must be answered as without budgets
+            if (not probs and len(dev) == 1 and dev[0][1][0] == "deadline" and not budget["total_timeout"]
+                    and not budget["preprocessing_timeout"] and budget["inference_timeout"]):
+                for ci, rows in enumerate(obs):
+                    if not drive.is_exc(rows) and sum(1 for r in rows if r[2] or r[3]) > 1:
+                        probs.append("call %d: one expired per-query deadline flagged %d rows" % (ci + 1, sum(1 for r in rows if r[2] or r[3])))
             if probs:
                 res.violation(self.id, "budget", dict(case0, choices=choices, deviations=[[i, list(l), ch] for i, l, ch in dev],
                               point=dev[0][1][0] if dev else "none"), "flagged-or-same rows, no exception",
